@@ -55,7 +55,12 @@ Inductive event :=
 | EvIter (i : nat) (args : list val)
 | EvNext (i : nat).
 
-Definition env := var -> val.
+(* environments: a list of values indexed by variable number; a variable beyond the end reads as the
+   default value and is created (with default padding) by its first assignment.  The list representation
+   makes `x = v; x = v` and the exchange of assignments to different variables syntactic identities. *)
+Definition env := list val.
+Definition dflt : val := VBool false.
+Definition get (e : env) (x : var) : val := nth x e dflt.
 (* s_tr is the trace, most recent event first *)
 Record state := mkSt { s_env : env; s_pos : nat; s_tr : list event }.
 Definition oracle := nat -> val.
@@ -63,7 +68,13 @@ Definition oracle := nat -> val.
 Inductive outcome := Normal | Ret (v : val) | Exc | Brk | Cnt.
 Definition res := (outcome * state)%type.
 
-Definition upd (e : env) (x : var) (v : val) : env := fun y => if Nat.eqb y x then v else e y.
+Fixpoint upd (e : env) (x : var) (v : val) : env :=
+  match x, e with
+  | O, [] => [v]
+  | O, _ :: tl => v :: tl
+  | S x', [] => dflt :: upd [] x' v
+  | S x', a :: tl => a :: upd tl x' v
+  end.
 Definition set_var (x : var) (v : val) (st : state) : state :=
   mkSt (upd (s_env st) x v) (s_pos st) (s_tr st).
 Definition emit (ev : event) (st : state) : state := mkSt (s_env st) (s_pos st) (ev :: s_tr st).
@@ -74,14 +85,14 @@ Definition draw (o : oracle) (st : state) : val * state :=
 Fixpoint eval_test (o : oracle) (st : state) (t : test) : val * state :=
   match t with
   | Known b => (VBool b, st)
-  | Unknown i rd => draw o (emit (EvTest i (map (s_env st) rd)) st)
+  | Unknown i rd => draw o (emit (EvTest i (map (get (s_env st)) rd)) st)
   | TNot t' => let (v, st') := eval_test o st t' in (VBool (negb (truthy v)), st')
   end.
 
 Definition eval_rexpr (o : oracle) (st : state) (e : rexpr) : val * state :=
   match e with
   | RVal v => (v, st)
-  | RVar x => (s_env st x, st)
+  | RVar x => (get (s_env st) x, st)
   | RTest t => eval_test o st t
   end.
 
@@ -92,7 +103,7 @@ Definition enter (o : oracle) (st : state) (h : head) : state * lkind :=
   match h with
   | HWhile t => (st, LWhile t)
   | HFor (IKnown n) => (st, LCount n)
-  | HFor (IUnknown i rd) => (emit (EvIter i (map (s_env st) rd)) st, LGen i)
+  | HFor (IUnknown i rd) => (emit (EvIter i (map (get (s_env st)) rd)) st, LGen i)
   end.
 
 (* does the loop run one more iteration? *)
@@ -121,7 +132,7 @@ Definition step1 (ex : state -> list stmt -> option res)
                  (o : oracle) (st : state) (s : stmt) : option res :=
   match s with
   | SPass => Some (Normal, st)
-  | SEv i rd => Some (Normal, emit (EvCall i (map (s_env st) rd)) st)
+  | SEv i rd => Some (Normal, emit (EvCall i (map (get (s_env st)) rd)) st)
   | SAssign x e => let (v, st1) := eval_rexpr o st e in Some (Normal, set_var x v st1)
   | SReturn e => let (v, st1) := eval_rexpr o st e in Some (Ret v, st1)
   | SRaise => Some (Exc, st)
@@ -251,7 +262,7 @@ Definition canon (p : list stmt) : list stmt := map cstmt p.
 
 (* ---- plumbing for the semantics validation against CPython ---- *)
 Definition oracle_of (script : list val) : oracle := fun n => nth n script (VBool false).
-Definition env_of (init : list val) : env := fun x => nth x init (VBool false).
+Definition env_of (init : list val) : env := init.
 Definition event_eqb (a b : event) : bool :=
   match a, b with
   | EvCall i x, EvCall j y | EvTest i x, EvTest j y | EvIter i x, EvIter j y =>
@@ -273,6 +284,6 @@ Definition sem_case_ok (fuel : nat) (nvars : nat) (c : sem_case) : bool :=
   | None, None => true
   | Some (out, st), Some (out', tr, final) =>
       outcome_eqb out out' && list_eqb event_eqb (rev (s_tr st)) tr
-      && list_eqb val_eqb (map (s_env st) (seq 0 nvars)) final
+      && list_eqb val_eqb (map (get (s_env st)) (seq 0 nvars)) final
   | _, _ => false
   end.
